@@ -105,6 +105,47 @@ def parseRs (env : Env) : Sexp → Option (Nat → Obsv)
   | .list (.atom "rs_iter" :: vs) => (vs.mapM parseData).map fun ds => fun _ => oFromIter ds
   | _ => none
 
+/-- actions on the hot sources of a case (`hnext a v`, `hcomplete a`, `herror a e`, `rnext a v`, …) -/
+def parseSubjAction (env : Env) : Sexp → Option (Nat → Prog)
+  | .list [.atom "rnext", .atom name, v] => do
+      let d ← parseData v
+      match env.find name with
+      | some (.rawhot c _) => some fun _ => .cellRead c false fun l => forEach l.toList fun o => .obsNext o.toInt.toNat d .done
+      | _ => none
+  | .list [.atom "rerror", .atom name, e] => do
+      let e ← e.asNat
+      match env.find name with
+      | some (.rawhot c _) => some fun _ => .cellRead c false fun l => forEach l.toList fun o => .obsError o.toInt.toNat e .done
+      | _ => none
+  | .list [.atom "rcomplete", .atom name] =>
+      match env.find name with
+      | some (.rawhot c _) => some fun _ => .cellRead c false fun l => forEach l.toList fun o => .obsComplete o.toInt.toNat .done
+      | _ => none
+  | .list [.atom "hnext", .atom name, v] => do
+      let d ← parseData v
+      match env.find name with
+      | some (.subj sj _) => some fun _ => sj.next d
+      | some (.asubj sj _) => some fun _ => sj.next d
+      | some (.bsubj b _) => some fun _ => b.next d
+      | some (.rsubj r _) => some fun _ => r.next d
+      | _ => none
+  | .list [.atom "hcomplete", .atom name] =>
+      match env.find name with
+      | some (.subj sj _) => some fun _ => sj.complete
+      | some (.asubj sj _) => some fun _ => sj.complete
+      | some (.bsubj b _) => some fun _ => b.complete
+      | some (.rsubj r _) => some fun _ => r.complete
+      | _ => none
+  | .list [.atom "herror", .atom name, e] => do
+      let e ← e.asNat
+      match env.find name with
+      | some (.subj sj _) => some fun _ => sj.error e
+      | some (.asubj sj _) => some fun _ => sj.error e
+      | some (.bsubj b _) => some fun _ => b.error e
+      | some (.rsubj r _) => some fun _ => r.error e
+      | _ => none
+  | _ => none
+
 /-! ### pipelines: S-expression ↦ `Obsv` (pure: no operator allocates outside its `create` closure) -/
 partial def parsePipe (env : Env) : Sexp → Option Obsv
   | .list [.atom "just", v] => (parseData v).map oJust
@@ -153,6 +194,11 @@ partial def parsePipe (env : Env) : Sexp → Option Obsv
   | .list [.atom "contains", v, p] => do some (stdOp (kContains (← parseData v)) (← parsePipe env p))
   | .list [.atom "default_if_empty", v, p] => do some (stdOp (kDefaultIfEmpty (← parseData v)) (← parsePipe env p))
   | .list [.atom "ignore_elements", p] => (parsePipe env p).map (stdOp kIgnoreElements)
+  -- utils::ready_set_go (src/utils/ready_set_go.rs): `o.inner_subscribe(s); f()`
+  | .list [.atom "rsg", .list acts, p] => do
+      let src ← parsePipe env p
+      let as ← acts.mapM (parseSubjAction env)
+      some fun s => (src.sub s) ;; forEach as (fun a => a 0)
   | .list [.atom "timestamp", p] => (parsePipe env p).map (stdOp kId)
   | .list [.atom "time_interval", p] => (parsePipe env p).map (stdOp kTimeInterval)
   | .list [.atom "start_with", .list (.atom "l" :: vs), p] => do
@@ -255,44 +301,7 @@ def parseAction (env : Env) : Sexp → Option (Nat → Prog)
         (fun _ _ ev => match ev with
           | .next (.obs cid) => .userSub cid (fun _ _ _ => .done) .done
           | _ => .done) .done
-  | .list [.atom "rnext", .atom name, v] => do
-      let d ← parseData v
-      match env.find name with
-      | some (.rawhot c _) => some fun _ => .cellRead c false fun l => forEach l.toList fun o => .obsNext o.toInt.toNat d .done
-      | _ => none
-  | .list [.atom "rerror", .atom name, e] => do
-      let e ← e.asNat
-      match env.find name with
-      | some (.rawhot c _) => some fun _ => .cellRead c false fun l => forEach l.toList fun o => .obsError o.toInt.toNat e .done
-      | _ => none
-  | .list [.atom "rcomplete", .atom name] =>
-      match env.find name with
-      | some (.rawhot c _) => some fun _ => .cellRead c false fun l => forEach l.toList fun o => .obsComplete o.toInt.toNat .done
-      | _ => none
-  | .list [.atom "hnext", .atom name, v] => do
-      let d ← parseData v
-      match env.find name with
-      | some (.subj sj _) => some fun _ => sj.next d
-      | some (.asubj sj _) => some fun _ => sj.next d
-      | some (.bsubj b _) => some fun _ => b.next d
-      | some (.rsubj r _) => some fun _ => r.next d
-      | _ => none
-  | .list [.atom "hcomplete", .atom name] =>
-      match env.find name with
-      | some (.subj sj _) => some fun _ => sj.complete
-      | some (.asubj sj _) => some fun _ => sj.complete
-      | some (.bsubj b _) => some fun _ => b.complete
-      | some (.rsubj r _) => some fun _ => r.complete
-      | _ => none
-  | .list [.atom "herror", .atom name, e] => do
-      let e ← e.asNat
-      match env.find name with
-      | some (.subj sj _) => some fun _ => sj.error e
-      | some (.asubj sj _) => some fun _ => sj.error e
-      | some (.bsubj b _) => some fun _ => b.error e
-      | some (.rsubj r _) => some fun _ => r.error e
-      | _ => none
-  | _ => none
+  | s => parseSubjAction env s
 
 def childReact : Nat → Nat → Ev → Prog := fun _ _ _ => .done
 
